@@ -993,6 +993,23 @@ func genForProgram(rng *rand.Rand, legacy bool) ([]item, []item) {
 			items = append(items, item{kind: 'I', op: "jmp", a: operand{expr: []etok{{'t', blk.labels[0]}}}})
 		}
 	}
+	if rng.Intn(6) == 0 {
+		// conditional assembly: a block that is emitted exactly once and DEFINES things — an EQU
+		// used as the count of a later block, a label on one of its instructions referred to
+		// from outside
+		once := item{kind: 'F', name: ident(rng, used), expr: []etok{{'n', "1"}}}
+		nm := ident(rng, used)
+		v := 1 + rng.Intn(3)
+		vals[nm] = v
+		forDefs[nm] = []etok{{'n', fmt.Sprint(v)}}
+		lbl := ident(rng, used)
+		in1 := genInstr(rng, env, o)
+		in1.labels = []string{lbl}
+		once.body = append(once.body, item{kind: 'Q', name: nm, expr: []etok{{'n', fmt.Sprint(v)}}}, in1)
+		items = append(items, once)
+		items = append(items, item{kind: 'I', op: "jmp", a: operand{expr: []etok{{'t', lbl}}}})
+		items = append(items, item{kind: 'F', name: ident(rng, used), expr: []etok{{'t', nm}}, body: []item{genInstr(rng, env, o)}})
+	}
 	if rng.Intn(10) == 0 {
 		// a block that is emitted zero times and contains many blocks: more FOR keywords than the
 		// pass limit, hardly any expansion
